@@ -27,6 +27,6 @@ SPEC = {
             'distinct_nontrivial = distinct words goom decoded successfully (each also printed).',
     'assumptions': ['the reference is the Go 1.23 toolchain copy of golang.org/x/arch/arm64/arm64asm, vendored unchanged in harness/ref/arm64asm',
                     'the excluded SYS class is the constant w & 0xFFF80000 == 0xD5080000 frozen in harness/c17/c17.go (goom stubs the system-instruction alias table); '
-                    'it was fixed after a complete 2^32 run showed every disagreement inside it and none in the SYSL half',
+                    'it was fixed after a complete 2^32 run showed 0 disagreements outside it (none in the SYSL half 0xD5280000) and 2927 inside it, all of them DC (896) / TLBI (2031) words that goom leaves undecoded',
                     'operands other than PC-relative displacements are not compared'],
 }
